@@ -24,6 +24,9 @@ type Sched struct {
 	States  map[string]struct{}
 	Trace   []string
 	Aborted bool
+	// Deadlock is set when threads remain but none is enabled (all wait on conditions that no
+	// running thread can make true).
+	Deadlock bool
 }
 
 type sthread struct {
@@ -33,6 +36,7 @@ type sthread struct {
 	site   string
 	body   func()
 	Panic  any
+	wait   func() bool // non-nil while the thread is blocked: it is enabled only when wait() holds
 }
 
 type schedAbort struct{}
@@ -63,6 +67,24 @@ func (s *Sched) Point(site string) {
 	}
 }
 
+// Block is a scheduling point at which the calling thread waits for a condition (a lock to be
+// free, a once to complete, a counter to reach zero): the thread is not enabled, and therefore never
+// chosen, until ready() holds. This is how waiting is made visible: a blocked thread neither spins
+// nor holds the baton.
+func (s *Sched) Block(site string, ready func() bool) {
+	if s.cur < 0 {
+		return
+	}
+	t := s.threads[s.cur]
+	t.site = site
+	t.wait = ready
+	s.events <- t.id
+	if !<-t.resume {
+		panic(schedAbort{})
+	}
+	t.wait = nil
+}
+
 // Run executes all threads to completion under the chooser's schedule.
 func (s *Sched) Run() {
 	for _, t := range s.threads {
@@ -86,15 +108,26 @@ func (s *Sched) Run() {
 	}
 	for {
 		var enabled []int
-		if s.cur >= 0 && !s.threads[s.cur].done {
+		ready := func(t *sthread) bool { return !t.done && (t.wait == nil || t.wait()) }
+		curEnabled := s.cur >= 0 && ready(s.threads[s.cur])
+		if curEnabled {
 			enabled = append(enabled, s.cur)
 		}
+		live := 0
 		for _, t := range s.threads {
-			if !t.done && t.id != s.cur {
+			if !t.done {
+				live++
+			}
+			if t.id != s.cur && ready(t) {
 				enabled = append(enabled, t.id)
 			}
 		}
 		if len(enabled) == 0 {
+			if live > 0 {
+				s.Deadlock = true
+				s.abort()
+				return
+			}
 			break
 		}
 		if s.Steps >= s.Horizon {
@@ -105,7 +138,7 @@ func (s *Sched) Run() {
 		label := fmt.Sprintf("sched@%s", s.pcs())
 		if len(enabled) == 1 {
 			ch = 0
-		} else if s.cur >= 0 && !s.threads[s.cur].done {
+		} else if curEnabled {
 			ch = s.c.Choose(len(enabled), label)
 		} else {
 			ch = s.c.ChooseFree(len(enabled), label)
